@@ -118,6 +118,7 @@ func RunC15(s *Scenario, ev *Evidence, trace bool) (viol []Finding, tr []string)
 			ev.Eval(s.Hash(), nt)
 		}()
 	}
+	exportHeight := w.C.Height
 	stateA, err := w.C.Export()
 	if err != nil {
 		fail("", "export failed: %v", err)
@@ -224,6 +225,21 @@ func RunC15(s *Scenario, ev *Evidence, trace bool) (viol []Finding, tr []string)
 		// BeginBlock on A may complete orders / tally: B's begin-block was run by the mirror just before
 		if !w.RunBlock(&s.Blocks[bi]) {
 			break
+		}
+	}
+	// "exporting application state at any height": the export of the export point's height, taken now from the
+	// database of the chain that has moved on (und export --height N), gives the document that was exported then
+	if len(viol) == 0 && !w.Diverged && !w.C.InBlock && exportHeight > 0 && w.C.Height > exportHeight {
+		if past, err := w.C.ExportAt(exportHeight); err != nil {
+			fail("", "export of the past height %d (the chain is at %d) failed: %v", exportHeight, w.C.Height, err)
+		} else if secP, err := moduleSections(past); err == nil {
+			w.Class("c15.export-of-past-height")
+			for _, m := range c15Modules {
+				if secA[m] != secP[m] {
+					fail("", "exporting height %d later (chain at %d) gives a different %s document than exporting it when it was the head (%d vs %d bytes)", exportHeight, w.C.Height, m, len(secP[m]), len(secA[m]))
+					break
+				}
+			}
 		}
 	}
 	if len(viol) == 0 && !w.Diverged && !b.InBlock && !w.C.InBlock {
